@@ -33,6 +33,14 @@ GroupProgs == {NGroup(NVar(""), << Pair(k, v) >>) : k \in KeyExprs, v \in ValExp
                     NGroup(PA(<<NVar(""), NName(kk)>>), << Pair(NCall(NVar("string"), <<NVar("")>>), NVar("")) >>),
                     PA(<<NGroup(NVar(""), << Pair(S, ID) >>), NName(kx)>>) }
 
+\* grouping an ordered sequence: each member's value is v over the group's items in the order the order-by gave them
+Desc(e) == NSort(NVar(""), <<[dir |-> ">", e |-> e]>>)
+SortedGroupProgs == { NGroup(Desc(ID), << Pair(k, v) >>) : k \in {S, NStr(kx)}, v \in {ID, NArray(<<ID>>), NCall(NVar("join"), <<NCall(NVar("string"), <<ID>>)>>)} }
+                    \cup { NGroup(NSort(NVar(""), <<[dir |-> "", e |-> S], [dir |-> ">", e |-> ID]>>), << Pair(S, ID) >>),
+                           PA(<<NGroup(Desc(ID), << Pair(S, ID) >>), NName(kx)>>),
+                           NGroup(NSort(NPred(NVar(""), <<NCmpOp(">", ID, NNum(IntV(1)))>>), <<[dir |-> ">", e |-> ID]>>), << Pair(S, ID) >>) }
+SortArrays == {Arr([i \in 1..3 |-> It(i, f[i], Undef)]) : f \in [1..3 -> SVals]}
+
 \* one item as the whole context (not an array): the same groupings, standalone constructors and constructor steps, with
 \* key collisions between pairs whose earlier value is absent, present, literal or computed
 Nope == PA(<<NName(<<110, 111>>)>>)
@@ -57,6 +65,11 @@ FnProgs == {
     NCall(NVar("lookup"), <<O, NStr(kb)>>),
     NCall(NVar("each"), <<O, NLambda(<<"v", "k">>, NConcat(NVar("k"), NCall(NVar("string"), <<NVar("v")>>)))>>),
     NCall(NVar("count"), <<NCall(NVar("each"), <<O, NLambda(<<"v">>, NNum(IntV(1)))>>)>>),
+    \* callbacks that yield nothing for some members: every other member still appears exactly once, and nothing else does
+    NCall(NVar("each"), <<O, NLambda(<<"v", "k">>, NCond(NCmpOp("=", NVar("v"), NNum(IntV(1))), NVar("k"), NNone))>>),
+    NCall(NVar("each"), <<O, NLambda(<<"v", "k">>, NCond(NCmpOp("!=", NVar("k"), NStr(ka)), NVar("k"), NNone))>>),
+    NCall(NVar("each"), <<O, NLambda(<<"v">>, PA(<<NVar("v"), NName(ka)>>))>>),
+    NCall(NVar("count"), <<NCall(NVar("each"), <<O, NLambda(<<"v", "k">>, NCond(NCmpOp("!=", NVar("k"), NStr(kb)), NVar("v"), NNone))>>)>>),
     NCall(NVar("sift"), <<O, NLambda(<<"v", "k">>, NCmpOp("!=", NVar("k"), NStr(ka)))>>),
     NCall(NVar("sift"), <<O, NLambda(<<"v">>, NCmpOp("=", NVar("v"), NNum(IntV(1))))>>),
     NCall(NVar("merge"), <<NArray(<<O, NObject(<< Pair(NStr(ka), NNum(IntV(9))) >>)>>)>>),
@@ -87,6 +100,7 @@ FnProgs == {
 Init == /\ \/ \E p \in GroupProgs, a \in AllArrays : case = MkCase(p, a)
            \/ \E p \in GroupProgs \cup SingleProgs, it \in SingleItems : case = MkCase(p, it)
            \/ \E p \in FnProgs, o \in Objs : case = MkCase(p, o)
+           \/ \E p \in SortedGroupProgs, a \in SortArrays : case = MkCase(p, a)
         /\ out = Pending
 Next == EvaluateCase
 Spec == Init /\ [][Next]_mcvars
